@@ -50,7 +50,7 @@ def _m4_job(job):
 
 
 REGIONS = ['top', 'sect1_block', 'sect1_indent', 'sect2_block', 'action_brace', 'action_line', 'action_string',
-           'action_comment', 'action_apos_comment', 'action_char', 'sect3', 'sect3_comment']
+           'action_comment', 'action_apos_comment', 'action_char', 'sect3', 'sect3_comment', 'sect2_mid_block', 'action_pctbrace']
 
 
 def build_spec(rng):
@@ -79,12 +79,21 @@ def build_spec(rng):
     L = []
     blank = lambda: [''] * rng.choice([0, 0, 1, 2])
     L += ['%top{', mark('top', P(bad_str), 'string'), mark('top', P(bad_cmt), 'comment'), '}'] + blank()
-    feats = set(f for f in ('longline', 'strcont', 'indent_then_block', 'cmtcont') if rng.random() < 0.3)
+    feats = set(f for f in ('longline', 'strcont', 'indent_then_block', 'cmtcont', 'indent_gap', 'mid_block', 'blank_runs',
+                            'pipe_then_pctbrace', 'less_multiline') if rng.random() < 0.3)
     if 'indent_then_block' in feats:
         L += ['    static int fv_indented_first;']
     L += ['%{', '#include <stdio.h>', 'static void fv_use(const char *s) { (void) s; }',
           mark('sect1_block', P(bad_str), 'string'), mark('sect1_block', P(bad_cmt), 'comment'), '%}'] + blank()
     L += ['    ' + mark('sect1_indent', P(bad_str), 'string')] + blank()
+    if 'indent_gap' in feats:
+        # indented code lines separated by lines flex skips: each group needs its own #line
+        L += ['    ' + mark('sect1_indent', P(bad_str), 'string'), '', '    ' + mark('sect1_indent', P(bad_str), 'string'),
+              'DG2 [0-7]', '    ' + mark('sect1_indent', P(bad_str), 'string'), '%option nodefault', '%option default',
+              '    ' + mark('sect1_indent', P(bad_str), 'string')]
+    if 'blank_runs' in feats:
+        # runs of blank lines inside user code are part of it
+        L += ['%{', mark('sect1_block', P(bad_cmt), 'comment')] + [''] * rng.choice([2, 3, 4]) + [mark('sect1_block', P(bad_cmt), 'comment'), '%}']
     L += ['%option noyywrap noinput nounput', 'DIG [0-9]', '%x SC'] + blank()
     L += ['%%'] + blank()
     L += ['%{', mark('sect2_block', P(bad_cmt), 'comment'), '%}'] + blank()
@@ -94,7 +103,14 @@ def build_spec(rng):
         L += ['z1\t{ fv_use("ab\\', 'cd"); }'] + blank()
     if 'cmtcont' in feats:
         L += ['z2\t{ /* a comment', '   over two lines */ fv_use("z2"); }'] + blank()
+    if 'less_multiline' in feats:
+        L += ['z3\t{ yyless(', '\t\t1', '\t); }'] + blank()
     L += ['a+\t{ ' + mark('action_brace', P(bad_str + ['{', '}']), 'stmt') + ' }'] + blank()
+    if 'mid_block' in feats:
+        # a %{ %} block between two rules: copied to the output (its place there is the user's business)
+        L += ['%{', mark('sect2_mid_block', P(bad_cmt + ['REJECT']), 'comment'), '%}'] + blank()
+    if 'pipe_then_pctbrace' in feats:
+        L += ['z4\t|', 'z5\t%{ ' + mark('action_pctbrace', P(bad_str + ['{', '}', 'REJECT']), 'stmt') + ' %}'] + blank()
     L += ['b\t{', '\t' + mark('action_brace', P(bad_str + ['{', '}']), 'stmt'),
           '\t' + mark('action_comment', P(bad_cmt), 'comment'),
           '\t' + mark('action_apos_comment', P(['\n', '%}', '%{', '%%', '\\']), 'aposcomment'),
@@ -206,6 +222,56 @@ def _e2e_job(job):
                 if mk not in src:
                     res['problems'].append('#line %d "%s" precedes %r, which is on input line %d' % (
                         n, fn, nxt.strip()[:60], next((j + 1 for j, s in enumerate(llines) if mk in s), -1)))
+    # (4) attribution: every marked line of user code is attributed to its own input line (a missing
+    #     directive is as wrong as a wrong one), and generated code is not attributed to the input file
+    if not noline:
+        where = {}
+        for j, sl in enumerate(llines):
+            for mk in re.findall(r'FVB\d+:', sl):
+                where[mk] = j + 1
+        cur_file, cur_line = None, None
+        for i, l in enumerate(olines):
+            m = re.match(r'#line (\d+) "(.*)"', l)
+            if m:
+                cur_file, cur_line = os.path.basename(m.group(2)), int(m.group(1))
+                continue
+            for mk in re.findall(r'FVB\d+:', l):
+                if cur_file != os.path.basename(lf) or cur_line != where.get(mk):
+                    res['problems'].append('user code %s of input line %s stands at output line %d, which is attributed to %s line %s '
+                                           '(no or wrong #line before it)' % (mk, where.get(mk), i + 1, cur_file, cur_line))
+            if re.match(r'#define FLEX_SCANNER\b|#define YY_FLEX_MAJOR_VERSION\b', l) and cur_file == os.path.basename(lf):
+                res['problems'].append('generated code (%r, output line %d) is attributed to the input file, line %s: no #line back to the '
+                                       'output file after user code' % (l[:40], i + 1, cur_line))
+            if cur_line is not None:
+                cur_line += 1
+    # (5) blank lines inside user code (a %{ %} block) survive
+    for j in range(len(llines) - 1):
+        if 'FVB' in llines[j] and llines[j + 1] == '' and llines[j].startswith('/* FVB') and j > 0 and llines[j - 1] == '%{':
+            k = j + 1
+            while k < len(llines) and llines[k] == '':
+                k += 1
+            if k < len(llines) and 'FVB' in llines[k] and k - j - 1 >= 2:
+                a = re.search(r'FVB\d+:', llines[j]).group(0)
+                b = re.search(r'FVB\d+:', llines[k]).group(0)
+                ia = next((i for i, l in enumerate(olines) if a in l), None)
+                ib = next((i for i, l in enumerate(olines) if b in l), None)
+                if ia is not None and ib is not None:
+                    got = sum(1 for l in olines[ia + 1:ib] if l.strip() == '')
+                    if got != k - j - 1:
+                        res['problems'].append('%d blank lines between two lines of user code, %d in the scanner%s' % (
+                            k - j - 1, got, ' (-L / noline)' if noline else ''))
+    # (6) the action of every rule starts with YY_RULE_SETUP
+    for region, k, payload in marks:
+        if not region.startswith('action'):
+            continue
+        i = next((i for i, l in enumerate(olines) if 'FVB%d:' % k in l), None)
+        if i is None:
+            continue
+        j = i
+        while j > 0 and not re.match(r'\s*case \d+:', olines[j]):
+            j -= 1
+        if not any('YY_RULE_SETUP' in l for l in olines[j:i + 1]):
+            res['problems'].append('the action of region %s (marker %d) runs without YY_RULE_SETUP (case label at output line %d)' % (region, k, j + 1))
     res['status'] = 'ok'
     for f in (lf, cf):
         try:
